@@ -123,6 +123,8 @@ func cmdWorker(args []string) int {
 			b := atomic.LoadInt64(&beat)
 			if b != 0 && time.Now().Unix()-b > runTimeout {
 				fmt.Fprintf(os.Stderr, "HANG: run exceeded %d s\n", runTimeout)
+				buf := make([]byte, 4<<20)
+				os.Stderr.Write(buf[:runtime.Stack(buf, true)])
 				if ilog != nil {
 					fmt.Fprintf(ilog, "HANG\n")
 				}
@@ -498,8 +500,8 @@ func cmdCheck(args []string) int {
 					}
 					lb, _ := os.ReadFile(logf)
 					tail := string(lb)
-					if len(tail) > 4000 {
-						tail = tail[:4000]
+					if len(tail) > 200000 {
+						tail = tail[:200000]
 					}
 					if !found {
 						results[i].err = fmt.Errorf("worker died before its first run: %v: %s", err, tail)
@@ -611,6 +613,12 @@ func cmdCheck(args []string) int {
 				break
 			}
 		}
+		if c.kind == "hang" && !hangInLibrary(c.log) {
+			// the time went into the harness (or nothing identifiable): that is our problem, not a verdict
+			fmt.Printf("WORKER-HANG in harness code (index %d seed %d): not attributed to the library\n%s\n", c.idx, c.seed, firstLines(c.log, 14))
+			harnessFault = "a run exceeded the per-run time limit inside harness code"
+			continue
+		}
 		sig := *prop + "|fatal|" + c.kind + "|" + classSig(class)
 		tot.Faults["worker-process-killed-by-run"]++
 		if fatalSeen[sig] || ci >= 6 {
@@ -618,7 +626,7 @@ func cmdCheck(args []string) int {
 		}
 		fatalSeen[sig] = true
 		tr := &world.Trace{Prop: *prop, Profile: *profile, Seed: c.seed, Index: c.idx, Note: "by-seed",
-			Fails: []world.Failure{{Prop: *prop, Oracle: "fatal", Op: c.kind, Class: classSig(class), Detail: c.log}}}
+			Fails: []world.Failure{{Prop: *prop, Oracle: "fatal", Op: c.kind, Class: classSig(class), Detail: firstLines(c.log, 80)}}}
 		tb, _ := json.MarshalIndent(tr, "", " ")
 		name := filepath.Join(*verif, "replays", fmt.Sprintf("%s-%d-fatal.json", *prop, c.seed))
 		os.WriteFile(name, tb, 0o644)
@@ -777,6 +785,29 @@ func cmdCheck(args []string) int {
 		return 2
 	}
 	return 0
+}
+
+// hangInLibrary looks at the goroutine dump of a run that exceeded its time limit: it is the
+// library's hang only if a running or runnable goroutine is executing library code.
+func hangInLibrary(log string) bool {
+	blocks := strings.Split(log, "\n\n")
+	for _, b := range blocks {
+		lines := strings.Split(strings.TrimSpace(b), "\n")
+		if len(lines) < 2 || !strings.HasPrefix(lines[0], "goroutine ") {
+			continue
+		}
+		// running, runnable or blocked (a deadlock among real goroutines in the plain build)
+		for _, l := range lines[1:] {
+			if strings.HasPrefix(l, "\t") || strings.HasPrefix(l, "runtime.") || strings.HasPrefix(l, "runtime/") || strings.HasPrefix(l, "main.cmdWorker.func") {
+				continue
+			}
+			if strings.HasPrefix(l, "github.com/RoaringBitmap/roaring/v2") && !strings.Contains(l, ".Verif") {
+				return true
+			}
+			break // innermost non-runtime frame is not library code
+		}
+	}
+	return false
 }
 
 func classSig(s string) string {
